@@ -20,6 +20,11 @@ CHILD = os.path.join(pvlib.VERIF, "harness", "children", "child.py")
 DECOY = os.path.join(pvlib.VERIF, "harness", "children", "with_decoy.py")
 
 
+# tools that fsync a regular-file stdout on the pinned tree (FileStream / FileWriter flush -> FSyncIgnoreUnsupported); a tool in this
+# set must report a failing fsync of its output file, whether or not it still attempts the call
+SYNCS = {"cache": True, "cache-k": True, "foldfilter": True, "foldfilter-s": True, "b64filter": True}
+
+
 def nonzero(st):
     return st != 0 and st != "HANG"
 
@@ -171,6 +176,44 @@ def run(ctx):
                             f"{'hung' if st == 'HANG' else 'exited 0'} with {got} bytes written")
                 break
     ctx.cov["runs_with_device_full"] = full_runs
+    # ---- (d') the output is a regular file whose fsync fails (a write-back error): every tool that syncs its output must report it,
+    # also when it has synced (or tried to sync) other descriptors before
+    import subprocess as _sp
+    for (label, tool, args, stdin, outs) in toolset.invocations(ctx.tmp, rng, 50):
+        if outs:
+            continue
+        outf = os.path.join(ctx.tmp, "fsync_out")
+
+        def run_to_file(env):
+            with open(outf, "wb") as fo:
+                try:
+                    p = _sp.run([ctx.bin(tool)] + args, input=stdin, stdout=fo, stderr=_sp.PIPE, env=env, timeout=60)
+                    return (p.returncode if p.returncode >= 0 else "sig%d" % -p.returncode), p.stderr
+                except _sp.TimeoutExpired:
+                    return "HANG", b""
+        rep = os.path.join(ctx.tmp, "rep.txt")
+        # does the unfaulted run sync a regular file at all?  (count with a harmless errno-less probe: run under strace if available)
+        e0 = pvlib.san_env({"LD_PRELOAD": shim, "PV_FAULT_REPORT": rep})
+        e0["ASAN_OPTIONS"] += ":verify_asan_link_order=0"
+        st0, _ = run_to_file(e0)
+        if st0 != 0:
+            continue
+        for en in (5, 28):
+            if os.path.exists(rep):
+                os.unlink(rep)
+            e = pvlib.san_env({"LD_PRELOAD": shim, "PV_FAULT_FSYNC_REGULAR": str(en), "PV_FAULT_REPORT": rep})
+            e["ASAN_OPTIONS"] += ":verify_asan_link_order=0"
+            st, err = run_to_file(e)
+            fired = os.path.exists(rep) and any("fired=" in ln for ln in open(rep))
+            ctx.count("fsync-of-output-file-fails", 1, [(label, en)])
+            synced = SYNCS.setdefault(label, fired)          # on the unchanged tree: does this tool sync its output file?
+            if synced and not nonzero(st):
+                pvlib.report_violation(ctx, f"fsyncreg:{label}:{en}", {"argv": [tool] + args, "stdin_hex": hx(stdin)[:20000], "stdout": "a regular file",
+                                       "env": {"PV_FAULT_FSYNC_REGULAR": str(en)}, "status": st, "fsync_of_the_file_attempted": fired,
+                                       "stderr": err.decode(errors="replace")[-300:]},
+                                       summary=f"{label}: stdout is a regular file whose fsync fails with errno {en}; the tool "
+                                               f"{'hung' if st == 'HANG' else 'exited 0'}" + ("" if fired else " without ever syncing the file"))
+                break
     # ---- (e) system-call faults injected from outside the process (strace), which also reach calls the C library issues
     # internally (stdio / iostream based tools): the k-th read(2) of a regular-file stdin fails with EIO; the k-th
     # write(2) to a regular-file stdout fails with ENOSPC while later ones succeed (a transient fault)
